@@ -324,6 +324,25 @@ def evaluate(case):
             scale = math.sqrt(float(nsq[0]))
             _cmp({k: v * scale for k, v in ud.items()}, dx, "normalized-has-unit-normsq", "normalized", "normalized(x) * |x| vs x")
         nontrivial = len(keys) >= 2
+        # the identities hold for the CURRENT coefficients: change an array-valued multivector in place through the public
+        # __setitem__ after norm()/normalized() has been called once, and ask again
+        import numpy as np
+        arr = np.array([[float(v), 2 * float(v)] for v in fvals])
+        xa = kd.mk_raw(alg, keys, np.array(arr))
+        first = _call(lambda: getattr(xa, case["fn"])(), "norm^2=normsq", case["fn"], "array-valued x")
+        other = kd.mk_raw(alg, keys, np.array(arr) * 3.0)
+        xa[0] = other[0]
+        again = _call(lambda: getattr(xa, case["fn"])(), "norm^2=normsq", case["fn"], "array-valued x after x[0] = ...")
+        for j, scale_ in ((0, 3.0), (1, 2.0)):
+            dj = {k: v * scale_ for k, v in dx.items()}
+            nj = clean(Rr.normsq(dj))
+            if case["fn"] == "norm":
+                sqj = kd.to_dict(again[j] * again[j])
+                _cmp(sqj, nj, "norm^2=normsq", "norm", f"after x[0] = 3*x[0] in place: norm(x)[{j}]^2 vs normsq of the current coefficients")
+            else:
+                _cmp(kd.to_dict(again[j].normsq()), {0: F(1)}, "normalized-has-unit-normsq", "normalized", f"after x[0] = 3*x[0] in place: normalized(x)[{j}].normsq()")
+                _cmp({k: v * math.sqrt(float(nj[0])) for k, v in kd.to_dict(again[j]).items()}, dj, "normalized-has-unit-normsq", "normalized",
+                     f"after x[0] = 3*x[0] in place: normalized(x)[{j}] * |x[{j}]| vs the current x[{j}]")
     return Info(nontrivial, labels, case, counters)
 
 
